@@ -5,6 +5,7 @@ P=$1; PROPS=${2:-all}
 cd /repo
 if [ -n "$(git status --porcelain)" ]; then echo "repo dirty"; exit 2; fi
 git apply "$P" || { echo "APPLY-FAILED $P"; git reset -q --hard HEAD; exit 2; }
-/verif/bin/kmcheck -prop "$PROPS" -verif /tmp/kmseed-verif 2>&1 | grep -E "^(FAIL|VIOLATION|     (required|found)|KNOWN)" | cut -c1-400
+mkdir -p /tmp/kmseed-verif; cp /verif/known_findings.json /tmp/kmseed-verif/
+/verif/bin/kmcheck -prop "$PROPS" -verif /tmp/kmseed-verif 2>&1 | grep -E "^(FAIL|VIOLATION|     (required|found))" | cut -c1-400 | head -${MAXLINES:-16}
 git reset -q --hard HEAD; git clean -fdq -- . 2>/dev/null
 mkdir -p /tmp/kmseed-verif
